@@ -94,28 +94,44 @@ Merge(old, new) ==
 -----------------------------------------------------------------------------
 (* arguments *)
 
-ArgVal(C, a) == IF a.v.k = "var" THEN VarVal(C, a.v.v) ELSE a.v
+\* variables are substituted wherever they occur in a literal (lists, input objects)
+RECURSIVE Subst(_, _)
+Subst(C, v) ==
+  CASE v.k = "var" -> VarVal(C, v.v)
+    [] v.k = "list" -> ListV([i \in DOMAIN v.v |-> Subst(C, v.v[i])])
+    [] v.k = "obj" -> V("obj", [x \in DOMAIN v.v |-> Subst(C, v.v[x])])
+    [] OTHER -> v
+ArgVal(C, a) == Subst(C, a.v)
 ArgNames(f) == {f.args[i].n : i \in DOMAIN f.args}
 ArgMap(C, f) == [n \in ArgNames(f) |-> ArgVal(C, CHOOSE a \in Range(f.args) : a.n = n)]
 DeclNames(fd) == {fd.args[i].n : i \in DOMAIN fd.args}
 Required(fd) == {fd.args[i].n : i \in {j \in DOMAIN fd.args : fd.args[j].type.k = "nonnull"}}
 
 \* rendering of the arguments by the universe's "echo" resolvers
-ValStr(v) == CASE v.k = "str" -> v.v
-               [] v.k = "int" -> ToString(v.v)
-               [] v.k = "bool" -> IF v.v THEN "true" ELSE "false"
-               [] v.k = "enum" -> v.v
-               [] OTHER -> "null"
-RECURSIVE EchoStr(_, _, _)
-EchoStr(fd, am, i) ==
+RECURSIVE ValStr(_, _, _), JoinVals(_, _, _, _), JoinFields(_, _, _, _)
+ValStr(U, t, v) ==
+  CASE v.k = "str" -> v.v
+    [] v.k = "int" -> ToString(v.v)
+    [] v.k = "bool" -> IF v.v THEN "true" ELSE "false"
+    [] v.k = "enum" -> v.v
+    [] v.k = "list" -> "[" \o JoinVals(U, IF t.k = "nonnull" THEN t.of.of ELSE t.of, v.v, 1) \o "]"
+    [] v.k = "obj" -> "{" \o JoinFields(U, U.types[BaseName(t)].infields, v.v, 1) \o "}"
+    [] OTHER -> "null"
+JoinVals(U, et, s, i) == IF i > Len(s) THEN "" ELSE ValStr(U, et, s[i]) \o "," \o JoinVals(U, et, s, i + 1)
+JoinFields(U, fds, o, i) ==
+  IF i > Len(fds) THEN ""
+  ELSE (IF fds[i].n \in DOMAIN o THEN fds[i].n \o ":" \o ValStr(U, fds[i].type, o[fds[i].n]) \o "," ELSE "")
+         \o JoinFields(U, fds, o, i + 1)
+RECURSIVE EchoStr(_, _, _, _)
+EchoStr(U, fd, am, i) ==
   IF i > Len(fd.args) THEN ""
-  ELSE fd.args[i].n \o "=" \o (IF fd.args[i].n \in DOMAIN am THEN ValStr(am[fd.args[i].n]) ELSE "-") \o ";"
-         \o EchoStr(fd, am, i + 1)
+  ELSE fd.args[i].n \o "=" \o (IF fd.args[i].n \in DOMAIN am THEN ValStr(U, fd.args[i].type, am[fd.args[i].n]) ELSE "-") \o ";"
+         \o EchoStr(U, fd, am, i + 1)
 
 -----------------------------------------------------------------------------
 (* execution *)
 
-RECURSIVE ExecSels(_, _, _, _), EvalUnits(_, _, _, _, _), EvalField(_, _, _, _), Complete(_, _, _, _, _), CompleteList(_, _, _, _, _, _)
+RECURSIVE ExecSels(_, _, _, _), EvalUnits(_, _, _, _, _), EvalField(_, _, _, _), Complete(_, _, _, _, _, _), CompleteList(_, _, _, _, _, _, _)
 
 \* selection set `sels` applied to data node `node`, whose response position is `path`
 ExecSels(C, node, sels, path) ==
@@ -150,20 +166,21 @@ EvalField(C, node, f, path) ==
              THEN Res(NullV, <<ErrRec(p, "missing_arg", CHOOSE n \in missing : TRUE)>>, <<>>)
              ELSE LET call == [node |-> node, field |-> f.name, args |-> am]
                       raw == C.U.data[node][f.name]
-                      v == IF raw.k = "echo" THEN StrV(EchoStr(fd, am, 1)) ELSE raw
+                      v == IF raw.k = "echo" THEN StrV(EchoStr(C.U, fd, am, 1)) ELSE raw
                   IN IF v.k = "err"
                      THEN Res(NullV, <<ErrRec(p, "resolver", v.v)>>, <<call>>)      \* C06
                      ELSE IF v.k = "errs"                                           \* a group of n errors: one entry each
                      THEN Res(NullV, [i \in 1..v.v |-> ErrRec(p, "resolver", "group")], <<call>>)
-                     ELSE LET r == Complete(C, fd.type, v, f.sels, p)
+                     ELSE LET r == Complete(C, fd.type, v, f.sels, p, <<node, f.name>>)
                           IN Res(r.val, r.errs, <<call>> \o r.calls)
 
-\* CompleteValue: value v returned for a position of declared type t
-Complete(C, t, v, sels, path) ==
+\* CompleteValue: value v returned for a position of declared type t.  `site` is <<node, field>> when
+\* v is the value a resolver returned for that field (list accessor failures are injected per site).
+Complete(C, t, v, sels, path, site) ==
   IF v.k = "null" THEN Res(NullV, <<>>, <<>>)
-  ELSE IF t.k = "nonnull" THEN Complete(C, t.of, v, sels, path)
+  ELSE IF t.k = "nonnull" THEN Complete(C, t.of, v, sels, path, site)
   ELSE IF t.k = "list"
-  THEN IF v.k = "list" THEN CompleteList(C, t.of, v.v, sels, path, 1)
+  THEN IF v.k = "list" THEN CompleteList(C, t.of, v.v, sels, path, 1, site)
        ELSE Res(NullV, <<ErrRec(path, "not_a_list", "")>>, <<>>)
   ELSE IF IsComposite(C.U, t.n)
   THEN IF v.k = "node"
@@ -171,10 +188,16 @@ Complete(C, t, v, sels, path) ==
        ELSE Res(NullV, <<ErrRec(path, "not_an_object", "")>>, <<>>)
   ELSE Res(v, <<>>, <<>>)             \* leaf: the universes of this family hold well-typed leaves (C05 has its own)
 
-CompleteList(C, et, elems, sels, path, i) ==
+\* a list accessor (AnyResolver.Nth) failing for element i of the list returned at `site`:
+\* that element is null and one error addresses it (C06)
+NthFails(C, site, i) == site # <<>> /\ <<site[1], site[2], ToString(i - 1)>> \in C.U.nth
+
+CompleteList(C, et, elems, sels, path, i, site) ==
   IF i > Len(elems) THEN Res(ListV(<<>>), <<>>, <<>>)
-  ELSE LET r == Complete(C, et, elems[i], sels, Append(path, PathIdx(i - 1)))
-           rest == CompleteList(C, et, elems, sels, path, i + 1)
+  ELSE LET r == IF NthFails(C, site, i)
+                THEN Res(NullV, <<ErrRec(Append(path, PathIdx(i - 1)), "accessor", "")>>, <<>>)
+                ELSE Complete(C, et, elems[i], sels, Append(path, PathIdx(i - 1)), <<>>)
+           rest == CompleteList(C, et, elems, sels, path, i + 1, site)
        IN Res(ListV(<<r.val>> \o rest.val.v), r.errs \o rest.errs, r.calls \o rest.calls)
 
 -----------------------------------------------------------------------------
